@@ -25,7 +25,7 @@ CHECKS = {
    note="Trusted: vlib/ref/sm2.py curve predicate, sigder.py container builders (each with a positive control). SM9 point import is covered by C17's group sub-check, not here.",
    design="4/C12"),
  "C08": dict(level="exploration", technique="property-based testing (Hypothesis) of two real library endpoints over socketpairs through a harness-owned fragmenting proxy; model-based stream oracle (Python queue), key/secret agreement read from both TLS_CONNECT structs",
-   text="Generated protocol x auth mode x chain depth x transfer program (directions, write sizes 1..50000, read buffer sizes, fragmentation schedule, closer). Both handshakes must complete with equal secrets; every read must return the next bytes of the model queue; echo phases (partial read, write on the same connection, read the rest; a clean refusal of the write is accepted, corruption is not); connections carrying 260..1300 records; 2400 plain handshakes per quick run incl. key-exchange secrets aimed at leading zero bytes. The byte-delivery schedule is owned by the proxy; CPU interleaving of the endpoint threads is only sampled.",
+   text="Generated protocol x auth mode x chain depth x transfer program (directions, write sizes 1..50000, read buffer sizes, fragmentation schedule, closer). Both handshakes must complete with equal secrets; every read must return the next bytes of the model queue; echo phases (partial read, write on the same connection, read the rest; a clean refusal of the write is accepted, corruption is not); connections carrying 260..1300 records; 2400 plain handshakes per quick run incl. key-exchange secrets aimed at leading zero bytes. Interoperability with an independent implementation: the honest mode of the pure-Python TLS 1.3 / TLS 1.2 / TLCP peers (vlib/peer13.py, peer12.py) against the library in both roles, with and without client authentication (about 1 600 handshakes per quick run): completion, validity of the library's Finished / CertificateVerify under the independent implementation, data intact in both directions. The byte-delivery schedule is owned by the proxy; CPU interleaving of the endpoint threads is only sampled.",
    note="Trusted: Python PKI builder (vlib/ref/x509.py) and stream model; entropy scripted, clock frozen. A 60 s command time-out is inconclusive, never a violation.",
    design="4/C08"),
  "C10": dict(level="fault_enumeration", technique="fault injection by a record-aware man-in-the-middle proxy between two honest library endpoints (generated single-bit and record-level faults over a reproducible transcript; Hypothesis draws the fault coordinates)",
@@ -33,7 +33,7 @@ CHECKS = {
    note="Trusted: the proxy and the deterministic replay (scripted entropy, frozen clock). Quiescence time-outs can only move a run towards 'not completed'.",
    design="4/C10"),
  "C09": dict(level="fault_enumeration", technique="enumerated credential-defect matrix instantiated with generated material (full handshakes between real library endpoints, the defective peer doctored after tls_init where setters refuse, a control run per cell) plus model-based adversarial peers: pure-Python scripted TLS 1.3 / TLS 1.2 / TLCP endpoints that deviate from the protocol state machine while keeping key schedule, record protection and Finished consistent with the transcript they really sent",
-   text="(matrix) 125 cells = protocol x verifying role x 27 credential defects, x chain depth x instance; (scripted13) 27 dishonest behaviours x both library roles: CertificateVerify by a wrong key, with nine foreign SignatureScheme codes, garbage / empty / foreign signatures, wrong context string, transcript or signer ID, omitted, before the Certificate, twice; Certificate omitted / empty / repeated; untrusted chain; (scripted12) 83 cells for TLS 1.2 and TLCP: ServerKeyExchange / CertificateVerify omitted, by a wrong key, over other randoms / parameters / IDs, TLCP encryption certificate of another party or untrusted, messages re-ordered or repeated, early ChangeCipherSpec / Finished. The library endpoint must never report a completed handshake; every case first runs the honest script, which must complete with data in both directions. Quick tier samples cells through Hypothesis (about 9 600 handshakes), thorough covers each cell many times.",
+   text="(matrix) 125 cells = protocol x verifying role x 27 credential defects, x chain depth x instance; (scripted13) 27 dishonest behaviours x both library roles: CertificateVerify by a wrong key, with nine foreign SignatureScheme codes, garbage / empty / foreign signatures, wrong context string, transcript or signer ID, omitted, before the Certificate, twice; Certificate omitted / empty / repeated; untrusted chain; (scripted12) 83 cells for TLS 1.2 and TLCP: ServerKeyExchange / CertificateVerify omitted, by a wrong key, over other randoms / parameters / IDs, TLCP encryption certificate of another party or untrusted, messages re-ordered or repeated, early ChangeCipherSpec / Finished. The library endpoint must never report a completed handshake; every case first runs the honest script as a control; a case whose control fails is left unjudged and counted (interoperability is C08's business, judged there by interop12 / interop13). Quick tier samples cells through Hypothesis (about 9 600 handshakes), thorough covers each cell many times.",
    note="Trusted: Python PKI builder, vlib/peer12.py / peer13.py (validated by interoperating with the library in both roles), frozen clock. In the matrix the defective peer is the library itself with doctored TLS_CONNECT fields. Only 'must not complete' is asserted, never which alert is sent; a stalled endpoint counts as not completed.",
    design="4/C09"),
  "C11": dict(level="exploration", technique="property-based testing (Hypothesis): round trip, differential interoperability with a Python record-layer model in both directions, generated edit neighbourhood that must be rejected, exact-size output buffers under ASan, and record duplication/swap/drop/replay on live connections through the proxy",
